@@ -287,7 +287,9 @@ def scalar_of_length(draw, l, hi, specials):
 
 
 def lengths_for(nbits, minbits=2):
-    c = [nbits] * 5 + [nbits - 1, nbits - 2, nbits - 7, nbits // 2 + 1, nbits // 2, 129, 128, 80, 66, 65]
+    # lengths of at most one digit too: `if (bn_bits(k) <= RLC_DIG) xx_mul_dig(...)` is a common shortcut of the
+    # variable-time routines and must not find its way into the regular ones (seed C20-5)
+    c = [nbits] * 5 + [nbits - 1, nbits - 2, nbits - 7, nbits // 2 + 1, nbits // 2, 129, 128, 80, 66, 65, 64, 64, 63, 33, 17, 5]
     return sorted({x for x in c if minbits <= x <= nbits}), c
 
 
